@@ -384,6 +384,9 @@ func decidePlan(p Plan) error {
 	<-peerDone
 	mu.Lock()
 	defer mu.Unlock()
+	if r := ev.RaceCheck(); r != "" {
+		return fmt.Errorf("the race detector reported a data race while this plan ran:\n%s", r)
+	}
 	if peerErr != nil {
 		return peerErr
 	}
